@@ -248,9 +248,9 @@ def run(chk):
 def bounded(chk):
     from props import c14_replay
     t0 = time.time()
-    rp = c14_replay.replay(dict(engine="LANCZOS", part="bounded"))
+    rp = c14_replay.replay(dict(engine="LANCZOS", part="bounded", tier=chk.tier), timeout=1800)
     ok = rp.get("replayed") and not rp.get("failing_input_found")
-    ob = Ob(key="C14/lanczos/orthonormal Q with first column v/||v||, T = Q^H A Q real symmetric tridiagonal, A Q - Q T zero except the last column, early termination/bounded(n<=40)",
+    ob = Ob(key="C14/lanczos/orthonormal Q with first column v/||v||, T = Q^H A Q real symmetric tridiagonal, A Q - Q T zero except the last column, early termination/bounded(n<=40; thorough: n<=80)",
             fn=FN + "lanczos", clause="Lanczos theorem on the real code", engine="BOUNDED", status=DISCHARGED if ok else FAILED,
             backend="real code on concrete Hermitian operators (n <= 40; definite, indefinite, repeated and clustered spectra; eigenvector and few-eigenvector starts)",
             secs=time.time() - t0, bounded=True, detail=str({k: v for k, v in rp.items() if k != "replayed"})[:400])
